@@ -648,11 +648,18 @@ def o_c16(meta, ans, ctx):
         if 'V' not in toks: return 'shape: ' + ans[:60]
         v = toks['V']
         if not re.fullmatch(r'[0-9a-f]+', v): return 'vec: serializing the vector failed (%s)' % v[:40]
-        if toks.get('S') != v: return 'slice: the slice reference is not serialized like the vector'
-        if toks.get('I') not in ('-', v): return 'iter: the iterator wrapper is not serialized like the vector'
+        # interior padding of zero-copy structures is uninitialised memory: two serializations of the same value may
+        # differ there; those positions ('..' in the model's bytes) are not compared
+        mtoks = dict(t.split(':', 1) for t in ctx.get('model_ans', '').split(' ')[1:] if ':' in t)
+        def same(a, b, mask):
+            if a is None or b is None or len(a) != len(b): return False
+            if not mask or len(mask) != len(a) or '.' not in mask: return a == b
+            return all(mask[k:k + 2] == '..' or a[k:k + 2] == b[k:k + 2] for k in range(0, len(a), 2))
+        if not same(toks.get('S'), v, mtoks.get('V')): return 'slice: the slice reference is not serialized like the vector'
+        if toks.get('I') != '-' and not same(toks.get('I'), v, mtoks.get('V')): return 'iter: the iterator wrapper is not serialized like the vector'
         wv = toks.get('WV')
-        if toks.get('WS') != wv: return 'nested-slice: a structure holding the slice differs from the one holding the vector'
-        if toks.get('WI') not in ('-', wv): return 'nested-iter: a structure holding the iterator differs from the one holding the vector'
+        if not same(toks.get('WS'), wv, mtoks.get('WV')): return 'nested-slice: a structure holding the slice differs from the one holding the vector'
+        if toks.get('WI') != '-' and not same(toks.get('WI'), wv, mtoks.get('WV')): return 'nested-iter: a structure holding the iterator differs from the one holding the vector'
         if 'intact=true' not in ans: return 'intact: the source vector changed'
         return None
     if k == 'iter':
